@@ -275,7 +275,9 @@ func FromParts(headerBytes []byte, hmacItem *rc.Item, entries []*rc.Item) (*Vouc
 }
 
 // ManufacturerKey returns the key in the header.
-func (v *Voucher) ManufacturerKey() (crypto.PublicKey, error) { return ParsePublicKey(v.Header.Items[4]) }
+func (v *Voucher) ManufacturerKey() (crypto.PublicKey, error) {
+	return ParsePublicKey(v.Header.Items[4])
+}
 
 // VerifyHMAC checks the header HMAC under the device secret.
 func (v *Voucher) VerifyHMAC(secret []byte) bool {
